@@ -110,10 +110,21 @@ class ScriptGen:
     def plan(self, allow_throw=True, prob=None):
         prob = (self.throws + self.subs) if prob is None else prob
         if self.rnd.random() >= prob: return "-"
+        if allow_throw and self.throws > 0 and self.subs > 0 and self.rnd.random() < 0.15:
+            # an event stored early in the step, a throw later in the same step, and an event submitted from exception_caught:
+            # the stored one must still be dispatched first (C04), and the step must end normally (C12)
+            n = self.rnd.randint(2, 6); k = self.rnd.randint(1, n - 1)
+            return ",".join([self.directive(k, False), "%d:throw" % n, self.directive(n + 1, False)])
         ords = {self.rnd.randint(1, self.maxplan)}
         if self.rnd.random() < 0.25: ords.add(self.rnd.randint(1, self.maxplan))
         # payloads are issued in execution (ordinal) order, so that numeric order = submission order
-        return ",".join(self.directive(n, allow_throw) for n in sorted(ords))
+        ds = []
+        for n in sorted(ords):
+            d = self.directive(n, allow_throw); ds.append(d)
+            # the behaviour that follows a throw is exception_caught: let it submit an event now and then (C04: "from exception_caught")
+            if d.endswith(":throw") and (n + 1) not in ords and self.rnd.random() < 0.4:
+                ds.append(self.directive(n + 1, False))
+        return ",".join(ds)
     def execution(self):
         self.sticky = {g: self.rnd.choice("01") for g in self.d.sticky}
         L = ["reset", "start 0 %s %s" % (self.gv(), self.plan(False, self.startsubs))]
